@@ -103,12 +103,27 @@ func c08StopStart(c *Ctx) *RuleResult {
 	}
 	// stopExecution shape
 	su := p.Unit(builderPkg, "BuildClient.stopExecution")
-	info := su.Info()
-	g := NewFuncCFG(info, su.Decl.Body)
+	// the drain is checked in the function that invokes the cancellation function, wherever that
+	// is (stopExecution itself or a helper it calls)
+	du := su
+	reachFromStop := staticReach(p, []ast.Node{su.Decl.Body}, su.Info())
+	for _, x := range p.UnitsIn(builderPkg) {
+		if x.Fn != su.Fn && !reachFromStop[x.Fn] {
+			continue
+		}
+		ast.Inspect(x.Decl.Body, func(n ast.Node) bool {
+			if call, ok := n.(*ast.CallExpr); ok && fieldOf(x.Info(), call.Fun) == canc {
+				du = x
+			}
+			return true
+		})
+	}
+	info := du.Info()
+	g := NewFuncCFG(info, du.Decl.Body)
 	var cancelCall *ast.CallExpr
 	var loop *ast.ForStmt
 	var rangeLoop *ast.RangeStmt
-	ast.Inspect(su.Decl.Body, func(n ast.Node) bool {
+	ast.Inspect(du.Decl.Body, func(n ast.Node) bool {
 		switch x := n.(type) {
 		case *ast.CallExpr:
 			if fieldOf(info, x.Fun) == canc {
@@ -137,7 +152,7 @@ func c08StopStart(c *Ctx) *RuleResult {
 		cleared := true
 		for _, f := range []string{"executionUpdates", "executionCancellation"} {
 			okc := false
-			ast.Inspect(su.Decl.Body, func(n ast.Node) bool {
+			ast.Inspect(du.Decl.Body, func(n ast.Node) bool {
 				if as, ok := n.(*ast.AssignStmt); ok && len(as.Lhs) == 1 && strings.HasSuffix(exprStr(as.Lhs[0]), "."+f) && isNilIdent(as.Rhs[0]) && as.Pos() > rangeLoop.End() {
 					okc = true
 				}
@@ -146,9 +161,9 @@ func c08StopStart(c *Ctx) *RuleResult {
 			cleared = cleared && okc
 		}
 		if !early && cleared && g.Dominates(cancelCall, g.Anchor(rangeLoop.X)) {
-			r.ok(construct, posOf(p, su.Decl), "cancel, range over the channel until closed, clear both fields")
+			r.ok(construct, posOf(p, du.Decl), "cancel, range over the channel until closed, clear both fields")
 		} else {
-			r.bad(c.Prop, construct, posOf(p, su.Decl), "stopExecution does not wait until the running action has fully stopped (range loop left early, or fields not cleared, or not cancelled first)")
+			r.bad(c.Prop, construct, posOf(p, du.Decl), "stopExecution does not wait until the running action has fully stopped (range loop left early, or fields not cleared, or not cancelled first)")
 		}
 		loop = nil
 		cancelCall = nil
@@ -191,7 +206,7 @@ func c08StopStart(c *Ctx) *RuleResult {
 		// fields cleared after the loop
 		for _, f := range []string{"executionUpdates", "executionCancellation"} {
 			cleared := false
-			ast.Inspect(su.Decl.Body, func(n ast.Node) bool {
+			ast.Inspect(du.Decl.Body, func(n ast.Node) bool {
 				if as, ok := n.(*ast.AssignStmt); ok && len(as.Lhs) == 1 && strings.HasSuffix(exprStr(as.Lhs[0]), "."+f) && isNilIdent(as.Rhs[0]) && as.Pos() > loop.End() {
 					cleared = true
 				}
@@ -205,10 +220,12 @@ func c08StopStart(c *Ctx) *RuleResult {
 	if skipForLoopCheck {
 		// already decided above
 	} else if okD {
-		r.ok(construct, posOf(p, su.Decl), "cancel, receive until closed, clear both fields")
+		r.ok(construct, posOf(p, du.Decl), "cancel, receive until closed, clear both fields")
 	} else {
-		r.bad(c.Prop, construct, posOf(p, su.Decl), "stopExecution does not wait until the running action has fully stopped: "+why)
+		r.bad(c.Prop, construct, posOf(p, du.Decl), "stopExecution does not wait until the running action has fully stopped: "+why)
 	}
+	info = su.Info()
+	g = NewFuncCFG(info, su.Decl.Body)
 	// Idle on every path
 	construct = su.Name() + "|reports-idle"
 	if g.EveryPathPasses(func(n ast.Node) bool {
@@ -318,13 +335,9 @@ func c08Shutdown(c *Ctx) *RuleResult {
 	stop := p.LookupFunc(builderPkg, "BuildClient.stopExecution")
 	construct = constructOf(u, "desired-idle")
 	okI := false
-	ast.Inspect(u.Decl.Body, func(n ast.Node) bool {
-		cc, ok := n.(*ast.CaseClause)
-		if !ok || len(cc.List) != 1 || !strings.HasSuffix(exprStr(cc.List[0]), "DesiredState_Idle") {
-			return true
-		}
+	for _, branch := range typeBranches(u.Decl.Body, "DesiredState_Idle") {
 		hasStop, hasClear := false, false
-		for _, s := range cc.Body {
+		for _, s := range branch {
 			ast.Inspect(s, func(m ast.Node) bool {
 				if call, ok := m.(*ast.CallExpr); ok && calleeOf(info, call) == stop {
 					hasStop = true
@@ -336,8 +349,7 @@ func c08Shutdown(c *Ctx) *RuleResult {
 			})
 		}
 		okI = hasStop && hasClear
-		return true
-	})
+	}
 	if okI {
 		r.ok(construct, posOf(p, u.Decl), "stopExecution and schedulerMayThinkExecutingUntil = nil")
 	} else {
@@ -351,7 +363,9 @@ func c08Shutdown(c *Ctx) *RuleResult {
 		d := BuildDTable(u, &ast.BlockStmt{List: []ast.Stmt{first, &ast.ReturnStmt{Results: []ast.Expr{ast.NewIdent("false"), ast.NewIdent("nil")}}}})
 		if d.Err == "" {
 			ctxA := d.FindBool(func(k string) bool { return strings.Contains(k, ctxName+".Err()") })
-			nilA := d.FindBool(func(k string) bool { return strings.Contains(k, "schedulerMayThinkExecutingUntil") && strings.Contains(k, "nil") })
+			nilA := d.FindBool(func(k string) bool {
+				return strings.Contains(k, "schedulerMayThinkExecutingUntil") && strings.Contains(k, "nil")
+			})
 			var afterA *dtAtom
 			for _, a := range d.Atoms {
 				if a.Order && strings.Contains(a.Key, "schedulerMayThinkExecutingUntil") {
@@ -440,8 +454,8 @@ func c08Shutdown(c *Ctx) *RuleResult {
 
 func init() {
 	register(&PropertySpec{
-		ID:    "C08",
-		Level: "other",
+		ID:          "C08",
+		Level:       "other",
 		Explanation: "Structural necessary conditions: stop-before-start (dominance), stopExecution's cancel / drain-until-closed / clear / Idle shape, the executor goroutine's completion report, the shutdown override being the last store to PreferBeingIdle before Synchronize, idle-after-failure, the Idle desired state handling, the termination test's decision table and the thread loop's only exit. Interleavings of the executor goroutine with the bounded channel and timing are not decided.",
 		Assumptions: []string{"the scheduler client returns what the scheduler sent"},
 		Rules:       []RuleFunc{c08StopStart, c08Shutdown, c08Deadline, c08CompletedSend},
